@@ -8,7 +8,8 @@ package main
 // (numbered in order of declaration), comments, layout, the spelling `x++` of an assignment, the
 // arguments of a panic message (they must be plain identifiers; the format string is kept), the
 // order of the function declarations (the table is in the order of poRuntimeFuncs).
-// The operations of package reflect, math.Pow and `equal` (vm/helpers.go) are primitives of the DSL.
+// The operations of package reflect, math.Pow and `equal` (vm/helpers.go) are primitives of the DSL (the meaning of
+// `equal` is a parameter of the interpreter: equalSequences, which `equal` itself calls, is read like the others).
 // Anything that is not one of the shapes of PrimRules.v becomes `PUnrecognisedS "file:line"` /
 // `PUnrecognisedE "file:line"` / `PtUnknown "text"`, which makes `genruntime_recognised` of
 // coq/Bridge/BrRuntime.v fail.
@@ -26,7 +27,7 @@ func init() { generators = append(generators, genRuntime) }
 
 var poRuntimeFuncs = []string{
 	"fetch", "slice", "FetchFn", "FetchFnNil", "in", "length", "negate", "exponent", "makeRange",
-	"toInt", "toInt64", "toFloat64", "isNil",
+	"toInt", "toInt64", "toFloat64", "isNil", "equalSequences",
 }
 
 var poRtTypes = map[string]string{
